@@ -691,6 +691,7 @@ func Ops() []*core.Op {
 	return []*core.Op{
 		faults,
 		protocol,
+		staticOp(),
 		findings,
 		{
 			Name: "c08.retry",
